@@ -14,7 +14,7 @@ from hypothesis import strategies as st
 
 from hv.gen import vocab
 
-EPOCHS = [0, 1000, 10**9, 1_700_000_000_000_000]
+EPOCHS = [0, 1000, 10**9, 1_700_000_000_000_000, 100, 32_700, 2**31 - 40]  # the last three: stamps cross a narrow dtype's range
 HOST_NAMES = vocab.CPU_OPS + vocab.KERNEL_LAUNCHES + vocab.NONLAUNCH_RUNTIME + vocab.USER_ANNOTATIONS + vocab.AUTOGRAD_OPS + \
     list(vocab.TEMPLATE_OPS) + ["ProfilerStep#7"]
 DEV_NAMES = vocab.COMP_KERNELS + vocab.COMM_KERNELS + vocab.MEM_KERNELS + ["Stream Sync", "Context Sync", "Event Sync"]
